@@ -223,10 +223,12 @@ def create_configured_connection(database: str = ":memory:") -> duckdb.DuckDBPyC
     Returns:
         Configured DuckDB connection
     """
+    _verif.fault_point("connect")
     conn = duckdb.connect(
         database, config={"storage_compatibility_version": STORAGE_COMPATIBILITY_VERSION}
     )
     try:
+        _verif.fault_point("configure")
         configure_duckdb_connection(conn)
     except BaseException:
         conn.close()
